@@ -101,6 +101,27 @@ def keysOkVariants : List (Name × Nat × List (Option Name × Bool × Ty)) → 
 end
 
 mutual
+/-- types on which strict-mode decoding is injective on accepted inputs ("accepted bytes
+re-encode to themselves"): no index collections (finding F6: they accept repeated keys), no init
+hooks (they change the decoded value), and skipped fields whose `Default` is a value of the type -/
+def revTy : Ty → Bool
+  | .seq k t => k != .indexSet && revTy t
+  | .set _ t => revTy t
+  | .map k a b => k != .indexMap && revTy a && revTy b
+  | .array _ t => revTy t
+  | .prod k fs => !k.init && revTyFields fs
+  | .sum k vs => !k.init && revTyVariants vs
+  | .wrap _ t => revTy t
+  | _ => true
+def revTyFields : List (Option Name × Bool × Ty) → Bool
+  | [] => true
+  | (_, skip, t) :: fs => (if skip then HasTy t (defaultOf t) else revTy t) && revTyFields fs
+def revTyVariants : List (Name × Nat × List (Option Name × Bool × Ty)) → Bool
+  | [] => true
+  | (_, _, fs) :: vs => revTyFields fs && revTyVariants vs
+end
+
+mutual
 def WfTy : Ty → Bool
   | .seq k t =>
     WfTy t && (k.serChecksZst || !memZero t) &&
